@@ -12,8 +12,9 @@ int valid_write (string path, mixed who, string fn) { return 1; }
 // safe_apply made by sprintf("%O", ob): the named object scripts what happens inside
 string object_name (object ob) { return ob->vname (); }
 
-// safe_apply made by the compiler error logging: prints the message so that a compile error in a generated program is visible
-void log_error (string f, string m) { VL ("compile " + m); }
+// safe_apply made by the compiler error logging (smart_log): the driver passes (file, message) but this master
+// DECLARES NO PARAMETERS, so both arguments are surplus and dropped on entry (no locals either: lowest possible stack)
+void log_error () { VL ("say compile-error"); }
 
 // spare objects (refilled by prep() of the test object, outside the evaluation under test): the error handler
 // destructs one of them each time it runs.  error_handler() of the driver must have cleared restrict_destruct
